@@ -34,7 +34,8 @@ META = {
     "explanation": "Rule instances over Scoreboard.__init__/idxToDate/dateToIdx/__getitem__/collectIntervals, "
                    "Project.dateToIdx/idxToDate and their compiled twins: range facts on every in-range result, clamp "
                    "results as affine forms of the table size, monotonicity of index -> time, a sentinel rule for the "
-                   "interval scan, and the pair comparison of C13 restricted to the conversion functions.",
+                   "interval scan, and the pair comparison of C13 restricted to the conversion functions."
+                   " Also: every dateToIdx result decided on the computed index, floor (not truncation) in all conversions, reset of the run on every non-matching path, and a non-empty clipped run at every reported interval.",
     "assumptions": ["resolution > 0"],
     "trusted_base": ["Cython 3.3.0 front end (pair comparison)"],
 }
